@@ -30,9 +30,13 @@ def var_container(e, names):
 
 
 def named_adf(e, tabs, n):
-    adf, ra, bdd = A.make_adf(e, tabs, n)
-    adf.f[e.field('Adf', 'ordering')] = var_container(e, NAMES[:n])
-    return adf, ra, bdd
+    plain, _, bdd0 = A.make_adf(e, tabs, n)
+    # as the native replay: (names, Bdd::from(node list), roots) through the public constructors
+    nodes = VecObj([e.copyval(x) for x in bdd_nodes(e, bdd0)])
+    nb = e.call('<obdd::Bdd as From<Vec<bdd::BddNode>>>::from', [nodes])
+    acs = VecObj([e.copyval(x) for x in plain.f[e.field('Adf', 'ac')].items])
+    adf = e.call('<adf_bdd::adf::Adf as From<(VarContainer, Bdd, Vec<Term>)>>::from', [Struct([var_container(e, NAMES[:n]), nb, acs])])
+    return adf, Ref([adf], 0), adf.f[e.field('Adf', 'bdd')]
 
 
 def sval(x):
@@ -157,6 +161,9 @@ def db_job(e, p):
     fresh = [A.classes(e, v) for v in semjobs.run_proc(e, final, ra2, adf2)[0]]
     if canary: fresh = fresh + ['canary']
     if sorted(got) != sorted(fresh): probs.append('%s on the rebuilt object = %s, fresh = %s' % (final, got, fresh))
+    wrong = semjobs.answer_mismatch(e, p['fam'], tabs, n, final, got)
+    if wrong is not None:
+        report(e, 'db-roundtrip', what='%s on the object rebuilt from the database = %s, the definition gives %s' % (final, got, wrong[2]), case=case(wrong[0]), expected=wrong[2])
     if probs:
         m = sat_model(e, True); report(e, 'db-roundtrip', what='; '.join(probs[:3]), case=case(m))
     return {'final': final, 'history': hist, 'nodes': len(after), 'answer': got}
@@ -215,6 +222,9 @@ def replay(ctx, v):
         if out['ac_before'] != out['ac_after']: probs.append('roots changed')
         if out['names_before'] != out['names_after'] or not out['name_lookup_ok']: probs.append('names changed')
         if sorted(out['after']) != sorted(out['fresh']): probs.append('answer %s, fresh %s' % (out['after'], out['fresh']))
+        if case.get('tabs'):
+            exp = semjobs.py_oracle(semjobs.oracle_kind(case['final']), case['tabs'], case['n'])
+            if sorted(out['after']) != sorted(exp): probs.append('answer after the database round trip %s, the definition gives %s' % (out['after'], exp))
         return ('reproduced', {'problems': probs, 'native_output': out}) if probs else ('not-reproduced', out)
     out = native(ctx).call(dict(case, cmd='graph'), timeout=30)
     probs = judge_native_graph(out, case)
